@@ -148,10 +148,28 @@ def run(tier, seed, build, res):
         seqs += allp
     for _ in range(300 if tier == 'quick' else 5000):
         seqs.append(tuple(rng.randrange(len(SLOTS)) for _ in range(rng.randint(5, 8))))
+    # line-structured separators: 1-4 whole lines between the words, each an
+    # indentation followed by markup only, a comment, or nothing
+    INDENT = ['', '  ', '\t']
+    LINE = ['', '\\label{x}', '\\index{i}', '\\unkm{}', '% c', '\\label{x}\\index{i}',
+            '\\label{x} ', '{}']
+    ltypes = [a + b for a in INDENT for b in LINE]
+    lsep = []
+    for n in (1, 2, 3, 4):
+        allp = list(itertools.product(ltypes, repeat=n))
+        if n >= 3 or (tier == 'quick' and n >= 2):
+            allp = rng.sample(allp, 400 if tier == 'quick' else 6000)
+        for first in ('\n', ' \n', ''):
+            lsep += [first + ''.join(l + '\n' for l in q) + rng.choice(['', '  ']) for q in allp]
+    if tier == 'quick':
+        lsep = rng.sample(lsep, 1200)
     seps = {}
     cases = []
-    for q in seqs:
+    for q in seqs + lsep:
         sep = ''
+        if isinstance(q, str):
+            sep = q
+            q = ()
         for i in q:
             sep += SLOTS[i]
         # keep a control word apart from the following word
